@@ -198,6 +198,7 @@ func vfC04Run(v *vfT, c vfC04Case) {
 	// exchange in progress: initiator, next phase (0..5)
 	exI, exPhase := -1, 0
 	var exOffer, exAnswer SessionDescription
+	nNegotiated := 0
 	prLocal, prRemote := false, false // this exchange: provisional answer applied by the answerer / by the offerer
 	connected := false
 	opsWhileUnstable := 0
@@ -476,9 +477,35 @@ func vfC04Run(v *vfT, c vfC04Case) {
 				break
 			}
 			first := !hasApp(p) && !p.dcPending
-			if _, err := p.pc.CreateDataChannel(fmt.Sprintf("dc-%s-%d", p.name, p.nAdds), nil); err != nil {
+			var init *DataChannelInit
+			yes, no := true, false
+			switch ((op.A % 6) + 6) % 6 {
+			case 1:
+				init = &DataChannelInit{Ordered: &no}
+			case 2:
+				n := uint16(3)
+				init = &DataChannelInit{Ordered: &yes, MaxRetransmits: &n}
+			case 3:
+				n := uint16(500)
+				init = &DataChannelInit{MaxPacketLifeTime: &n}
+			case 4:
+				proto := "vf-proto"
+				init = &DataChannelInit{Protocol: &proto}
+			case 5:
+				// negotiated out of band: both sides would create it with the same id; ids are unique per history
+				id := uint16(100 + nNegotiated)
+				nNegotiated++
+				init = &DataChannelInit{Negotiated: &yes, ID: &id}
+			}
+			if _, err := p.pc.CreateDataChannel(fmt.Sprintf("dc-%s-%d", p.name, p.nAdds), init); err != nil {
 				skipped = true
 				break
+			}
+			if p.nDC == 0 && init != nil && init.Negotiated != nil {
+				v.Label("first-data-channel-negotiated")
+				if p.pc.CurrentLocalDescription() != nil {
+					v.Label("first-data-channel-negotiated:after-media-only-exchange")
+				}
 			}
 			p.nAdds++
 			p.nDC++
@@ -695,6 +722,23 @@ func TestVerif_C04_Histories(t *testing.T) {
 			}
 			c.Ops = append(c.Ops, vfC04Op{K: "exchange", X: 1 - x})
 		}
+		if len(c.Ops) == 0 && rapid.IntRange(0, 4).Draw(v.R, "templateDC") == 0 {
+			// the first data channel of a peer, with drawn options (often negotiated out of band), as the
+			// first need-creating operation of the history or after a completed media-only exchange
+			x := rapid.IntRange(0, 1).Draw(v.R, "dx")
+			if rapid.Bool().Draw(v.R, "dAfterMedia") {
+				c.Ops = append(c.Ops, vfC04Op{K: rapid.SampledFrom([]string{"addTr", "addTrack"}).Draw(v.R, "dk"), X: x, A: rapid.IntRange(0, 3).Draw(v.R, "da")},
+					vfC04Op{K: "exchange", X: x})
+				if rapid.Bool().Draw(v.R, "dOnPeer") {
+					x = 1 - x
+				}
+			}
+			a := 5
+			if rapid.IntRange(0, 2).Draw(v.R, "dPlain") == 0 {
+				a = rapid.IntRange(0, 4).Draw(v.R, "dOpt")
+			}
+			c.Ops = append(c.Ops, vfC04Op{K: "addDC", X: x, A: a})
+		}
 		if len(c.Ops) == 0 && rapid.IntRange(0, 2).Draw(v.R, "templatePr") == 0 {
 			// a renegotiation through a provisional answer with a change made while a peer sits in
 			// have-local-pranswer / have-remote-pranswer: connect, re-offer up to the created answer,
@@ -726,7 +770,7 @@ func TestVerif_C04_Histories(t *testing.T) {
 			c.Ops = append(c.Ops, vfC04Op{K: "exchange", X: y})
 		}
 		for i := 0; i < n; i++ {
-			op := vfC04Op{K: rapid.SampledFrom(kinds).Draw(v.R, "k"), X: rapid.IntRange(0, 1).Draw(v.R, "x"), A: rapid.IntRange(0, 3).Draw(v.R, "a")}
+			op := vfC04Op{K: rapid.SampledFrom(kinds).Draw(v.R, "k"), X: rapid.IntRange(0, 1).Draw(v.R, "x"), A: rapid.IntRange(0, 5).Draw(v.R, "a")}
 			if i == 0 && rapid.IntRange(0, 4).Draw(v.R, "mediaFirst") != 0 {
 				op.K = rapid.SampledFrom([]string{"addTrack", "addTr", "addDC"}).Draw(v.R, "k0")
 			}
